@@ -9,8 +9,11 @@ COQ_PROPS = ['Props/C06.v']
 COQ_IMPORTS = ['Prims', 'CaseLib', 'BitsCore', 'Mutators', 'Search', 'Golomb', 'Stream']
 RULE = ('histories of 3..25 stream operations (reads with every token kind and integer counts incl. 0 and negative, peeks, readlist/peeklist with stretchy tokens, seeks via pos/bytepos/bytealign, '
         'find/rfind/readto, every mutator, property assignment, copies/slices/operators) from random (content, pos) on ConstBitStream and BitStream; (bin, pos, value|exception) compared after every step '
-        'with a (bits, pos) reference machine and with the Coq model; non-trivial = history in which pos moves at least twice; distinct by history')
-ASSUMPTIONS = ['token interpretations are those of C02/C10 (here: bits, uint, int, bin, hex, bool, pad, bytes, ue/se/uie/sie)', 'msb0 mode']
+        'with a (bits, pos) reference machine and with the Coq model; every call that returns an object (each operator and its reflected / augmented form with empty, identity, self and stream operands of every '
+        'promotable type, copies, slices, constructors with and without pos, read / peeked / unpacked bits, cut, split, join, pack) is probed: class, bits, pos 0, not the operand itself, reading from it moves it alone, '
+        'kept objects are used again later and looked at after every step; non-stream queries never move pos; also from every construction route and under lsb0; '
+        'non-trivial = history in which pos moves at least twice; distinct by history')
+ASSUMPTIONS = ['token interpretations are those of C02/C10 (here: bits, uint, int, bin, hex, bool, pad, bytes, ue/se/uie/sie)', 'msb0 mode for the histories of the stream machine (the object-returning calls are also run under lsb0, where the documentation has reads go from the right)']
 COQ_PRELUDE = '''
 Definition value_eqb (a b : value) : bool :=
   match a, b with
@@ -40,11 +43,101 @@ def fmt_of(t):
     if 'c' in t: return t['c']
     return t['k'] if 'n' not in t else f"{t['k']}:{t['n']}"
 
+# ---------------- new objects returned by calls on a stream (operators, copies, slices, constructors, read bits) ----------------
+# "every new stream object a call returns starts at 0", "other operations move pos only as documented", "pos never affects any non-stream result":
+# every call below returns an object; it is probed (class, bits, pos, identity), read from, optionally KEPT and used again later in the history
+# ('usekept'), while the stream it came from, the operand streams and all kept objects must stay where they were.
+STREAMS = ('ConstBitStream', 'BitStream')
+BINOPS = ['add', 'radd', 'and', 'or', 'xor', 'rand', 'ror', 'rxor']
+AUGOPS = ['aug_add', 'aug_and', 'aug_or', 'aug_xor', 'aug_mul', 'aug_lshift', 'aug_rshift']      # on a ConstBitStream `t = s; t op= x` is the binary operator (a new object); on a BitStream it is run as the binary operator too
+UNOPS = ['mul', 'rmul', 'lshift', 'rshift', 'invert', 'copy', 'copycopy', 'slice', 'ctor', 'ctor_pos', 'ctor_other', 'ctor_other_pos',
+         'peek_n', 'read_n', 'peek_bits', 'read_bits', 'peeklist_bits', 'readlist_bits', 'unpack_bits', 'bitsprop', 'cut', 'split', 'join', 'pack_bits', 'readto_obj']
+NEWOBJ_HOWS = BINOPS + AUGOPS + UNOPS
+LSB0_HOWS = BINOPS + AUGOPS + ['mul', 'rmul', 'lshift', 'rshift', 'invert', 'copy', 'copycopy', 'slice', 'ctor', 'ctor_pos', 'ctor_other', 'ctor_other_pos', 'peek_n', 'read_n', 'unpack_bits', 'bitsprop', 'pack_bits', 'join']
+OPERAND_TYPES = ['str', 'str', 'hexstr', 'Bits', 'BitArray', 'ConstBitStream', 'BitStream', 'list', 'tuple', 'bytes', 'bytearray', 'bitarray', 'gen', 'self', 'selfcopy']
+NSPECS = [0, 1, 2, 3, 8, 'len-1', 'len', 'len+1', 1000, -1]
+PURE = ['len', 'bin', 'tobytes', 'count1', 'count0', 'all', 'any', 'startswith', 'endswith', 'contains', 'findall', 'str', 'repr', 'bool', 'iter', 'index', 'pp', 'eq', 'ne', 'hash',
+        'tobitarray', 'uint', 'hex', 'bytes_prop', 'copy_eq', 'tofile']
+
+def gen_operand(rng, samelen, identity=False):
+    """an operand of a binary operator: its type and either explicit bits or (for & | ^, which need the stream's current length) a rule"""
+    x = {'t': rng.choice(OPERAND_TYPES), 'pos': rng.choice([0, 0, 1, 3, 8, 1000])}          # pos: where an operand that is itself a stream stands (capped by its length)
+    if samelen:
+        x['mode'] = rng.choice(['zeros', 'ones', 'alt', 'inv', 'same'])
+        if rng.random() < 0.08: x['bits'] = rand_bits(rng, rng.choice([0, 1, 8]))            # (almost always) another length: refused
+    else:
+        x['bits'] = '' if identity or rng.random() < 0.45 else rand_bits(rng, rng.choice([1, 2, 3, 4, 8, 16, 24]))
+    return x
+
+def gen_newobj(rng, n, cls, how=None, identity=False, lsb0=False):
+    how = how or rng.choice(LSB0_HOWS if lsb0 else NEWOBJ_HOWS)
+    st = {'op': 'newobj', 'how': how, 'probe': rng.choice([0, 1, 3, 4, 8, 1000]), 'keep': rng.random() < 0.6}
+    base = how[4:] if how.startswith('aug_') else how
+    if base in ('add', 'radd'): st['x'] = gen_operand(rng, False, identity)
+    elif base in ('and', 'or', 'xor', 'rand', 'ror', 'rxor'):
+        st['x'] = gen_operand(rng, True)
+        if identity: st['x'].pop('bits', None); st['x']['t'] = rng.choice(['self', 'self', 'selfcopy', 'Bits', 'str'])
+    elif base in ('mul', 'rmul'): st['n'] = 1 if identity else rng.choice([0, 1, 1, 2, 3, -1])
+    elif base in ('lshift', 'rshift'): st['n'] = 0 if identity else rng.choice(NSPECS)
+    elif base == 'slice':
+        st['key'] = [None, None, rng.choice([None, 1])] if identity else rng.choice([[None, None, None], [0, None, None], [None, 'len', None], [0, 'len', 1], [None, None, -1], [None, None, 2], [1, None, None],
+                                                                                     ['len', None, None], [3, 3, None], [-1, None, None], [None, None, 0],
+                                                                                     [rng.randrange(-n - 1, n + 2), rng.randrange(-n - 1, n + 2), rng.choice([None, 1, -1, 2, 3, -2])]])
+    elif base in ('ctor_pos', 'ctor_other_pos'): st['pmode'] = rng.choice(['zero', 'mid', 'end', 'end', 'over'])
+    elif base in ('peek_n', 'read_n', 'peek_bits', 'read_bits', 'peeklist_bits', 'readlist_bits'): st['n'] = rng.choice([0, 0, 1, 3, 8, 'rest', 'rest+1'])
+    elif base == 'cut': st.update(w=rng.choice([1, 3, 8, 16, 1000]), i=rng.randrange(0, 8))
+    elif base in ('split', 'readto_obj'): st.update(pat=rand_bits(rng, rng.choice([1, 1, 2, 3, 8])), i=rng.randrange(0, 8))
+    elif base == 'join': st['items'] = [gen_operand(rng, False) for _ in range(rng.choice([0, 1, 2, 3]))]
+    return st
+
+def gen_usekept(rng, n):
+    return {'op': 'usekept', 'j': rng.randrange(0, 4), 'how': rng.choice(['read', 'read', 'peek', 'setpos', 'readall', 'look']), 'n': rng.choice([0, 1, 2, 3, 8, 'rest', 'rest+1'])}
+
+def gen_pure(rng, n):
+    st = {'op': 'pure', 'm': rng.choice(PURE)}
+    if st['m'] in ('startswith', 'endswith', 'contains', 'findall'): st['pat'] = rand_bits(rng, rng.choice([1, 1, 2, 3, 8]))
+    if st['m'] == 'index': st['i'] = rng.randrange(-n - 1, n + 1)
+    return st
+
+def gen_newobj_cases(rng, tier):
+    """short histories made of object-returning calls only, over classes, construction routes, positions (start / inside / end), bit numberings and options"""
+    N = 260 if tier == 'quick' else 6000
+    sweep = [(h, cls) for h in NEWOBJ_HOWS for cls in STREAMS]
+    for i in range(N):
+        n = rng.choice([0, 1, 7, 8, 9, 16, 17, 31, 32, 33, 40, 64, 65]) if rng.random() < 0.85 else rng.randrange(0, 200)
+        lsb0 = rng.random() < 0.2
+        if i < len(sweep):
+            # every route to a new object at least once per run with the operand / count / slice that changes nothing, on a stream that is not at 0
+            how, cls = sweep[i]; n = max(n, 8); lsb0 = False
+            first = [gen_newobj(rng, n, cls, how, identity=True)]
+            first[0]['keep'] = True
+        else:
+            cls = rng.choice(STREAMS); first = []
+        route = rng.choice(['bin', 'bin', 'auto', 'copy']) if lsb0 else rng.choice(['bin', 'bin', 'bin', 'auto', 'auto', 'bytes', 'iter', 'bitarray', 'slice', 'copy', 'join', 'bytesio', 'file', 'file_exact', 'filehandle_raw'])
+        steps = list(first)
+        for _ in range(rng.randrange(2, 9)):
+            r = rng.random()
+            if r < 0.62: steps.append(gen_newobj(rng, max(n, 4), cls, lsb0=lsb0, identity=rng.random() < 0.3))
+            elif r < 0.8: steps.append(gen_usekept(rng, max(n, 4)))
+            elif r < 0.9: steps.append({'op': 'setpos', 'p': rng.choice([0, n, rng.randrange(0, n + 1)])})
+            elif lsb0: steps.append(gen_usekept(rng, max(n, 4)))
+            else: steps.append(rng.choice([{'op': 'read', 'tok': rng.choice([0, 1, 3, 8])}, gen_pure(rng, max(n, 4))]))
+        pos = rng.choice([n, n // 2, rng.randrange(0, n + 1), rng.randrange(0, n + 1), 0])
+        if i < len(sweep) and pos == 0: pos = rng.choice([n, n // 2, 1])          # (a position copied from, or shared with, the original shows only away from 0)
+        c = {'op': 'history', 'cls': cls, 'bits': rand_bits(rng, n), 'pos': pos, 'route': route, 'steps': steps}
+        if lsb0: c['opt_lsb0'] = True
+        elif rng.random() < 0.2: c['opt_ba'] = True
+        yield c
+
 def gen_step(rng, n, mutable):
-    ops = ['read', 'read', 'read', 'peek', 'readlist', 'peeklist', 'readto', 'setpos', 'setbytepos', 'getbytepos', 'bytealign', 'find', 'rfind', 'derive', 'eqhash']
+    ops = ['read', 'read', 'read', 'peek', 'readlist', 'peeklist', 'readto', 'setpos', 'setbytepos', 'getbytepos', 'bytealign', 'find', 'rfind', 'derive', 'eqhash',
+           'newobj', 'newobj', 'usekept', 'pure']
     if mutable:
         ops += ['append', 'iadd', 'prepend', 'insert', 'overwrite', 'setitem', 'delitem', 'replace', 'clear', 'imul', 'keep', 'keep', 'propset']
     op = rng.choice(ops)
+    if op == 'newobj': return gen_newobj(rng, n, 'BitStream' if mutable else 'ConstBitStream')
+    if op == 'usekept': return gen_usekept(rng, n)
+    if op == 'pure': return gen_pure(rng, n)
     st = {'op': op}
     small = lambda: rand_bits(rng, rng.choice([0, 1, 2, 3, 8]))
     if op in ('read', 'peek'): st['tok'] = rtok(rng, n)
@@ -103,14 +196,20 @@ def gen_cases(rng, tier):
         yield {'op': 'history', 'cls': cls, 'bits': bits, 'pos': pos,
                'steps': [first] + [gen_step(rng, max(len(bits), 4), cls == 'BitStream') for _ in range(rng.randrange(0, 4))]}
 
+    yield from gen_newobj_cases(rng, tier)
+
 def kind(c): return c['cls']
+
+def zc(v):
+    """an int as a canonical value; beyond 4000 bits (a stream grown by repeated *=, read whole as one integer) as hex text: neither json nor str() take such a number"""
+    return ['z', v] if v.bit_length() <= 4000 else ['zhex', format(v, 'x')]
 
 def canon_val(tok, v):
     """value as [tag, payload] with strings of digits turned back into bits"""
     import bitstring
     if v is None: return ['none']
     if isinstance(v, bool): return ['bool', v]
-    if isinstance(v, int): return ['z', v]
+    if isinstance(v, int): return zc(v)
     if isinstance(v, bitstring.Bits): return ['bits', v.bin, type(v).__name__, getattr(v, 'pos', None)]
     if isinstance(v, bytes): return ['bits', ''.join(format(x, '08b') for x in v)]
     if isinstance(v, str):
@@ -214,14 +313,157 @@ def apply_impl(s, st):
 
 def run_impl(c):
     import bitstring
-    s = build(c['cls'], c['bits'], 'bin', c['pos'])
+    if c.get('opt_lsb0'): bitstring.options.lsb0 = True        # before anything has a position (the documentation: switching invalidates positions); reset by the driver
+    s = build(c['cls'], c['bits'], c.get('route', 'bin'), c['pos'])
     bitstring.options.bytealigned = bool(c.get('opt_ba'))      # reset by the driver
     trace = []
+    kept = []           # stream objects returned by earlier calls of this history, used again later ('usekept') and looked at after every step
     for st in c['steps']:
         before = [s.bin, s.pos]
-        r = attempt(lambda: apply_impl(s, st))
-        trace.append([before, list(r), [s.bin, s.pos, len(s)]])
+        if st['op'] == 'newobj': r = attempt(lambda: do_newobj(s, st, kept))
+        elif st['op'] == 'usekept': r = attempt(lambda: do_usekept(kept, st))
+        elif st['op'] == 'pure': r = attempt(lambda: do_pure(s, st))
+        else: r = attempt(lambda: apply_impl(s, st))
+        trace.append([before, list(r), [s.bin, s.pos, len(s)], [[k.bin, k.pos] for k in kept]])
     return ('ok', trace)
+
+# ---- runner of the object-returning calls ----
+def resolve_n(v, n, pos):
+    if isinstance(v, str): return {'len': n, 'len-1': n - 1, 'len+1': n + 1, 'rest': n - pos, 'rest+1': n - pos + 1}[v]
+    return v
+
+def resolve_p(pmode, n): return {'zero': 0, 'mid': n // 2, 'end': n, 'over': n + 1}[pmode]
+
+def inv_bits(d): return ''.join('1' if ch == '0' else '0' for ch in d)
+
+def operand_bits(x, d):
+    if x['t'] in ('self', 'selfcopy'): return d
+    if 'bits' in x: return x['bits']
+    n = len(d)
+    return {'zeros': '0' * n, 'ones': '1' * n, 'alt': ('10' * n)[:n], 'inv': inv_bits(d), 'same': d}[x['mode']]
+
+def operand_type(x, bits, base):
+    t = x['t']
+    if t in ('bytes', 'bytearray') and len(bits) % 8: t = 'list'
+    if t == 'hexstr' and len(bits) % 4: t = 'str'
+    if t == 'bitarray' and base in ('rand', 'ror', 'rxor'): t = 'tuple'        # bitarray's own operator refuses the pair before the library is asked
+    return t
+
+def make_operand(t, bits, s, xpos):
+    if t == 'self': return s
+    if t == 'selfcopy': return type(s)(bin=bits)
+    if t in CLASSES:
+        o = cls_of(t)(bin=bits)
+        if hasattr(o, 'pos'): o.pos = min(xpos, len(bits))
+        return o
+    if t == 'str': return '0b' + bits if bits else ''
+    if t == 'hexstr': return '0x' + ''.join(format(int(bits[i:i + 4], 2), 'x') for i in range(0, len(bits), 4)) if bits else ''
+    return promotable(bits, t)
+
+def do_newobj(s, st, kept):
+    import bitstring, copy, operator
+    from bitstring import Bits, pack
+    how = st['how']; base = how[4:] if how.startswith('aug_') else how
+    d = s.bin; n = len(d); p0 = s.pos
+    xo = xb = None
+    if 'x' in st:
+        xb = operand_bits(st['x'], d); xo = make_operand(operand_type(st['x'], xb, base), xb, s, st['x'].get('pos', 0))
+    xs = xo if (xo is not None and xo is not s and hasattr(xo, 'pos')) else None
+    xrec = [xs.pos] if xs is not None else None
+    N = resolve_n(st.get('n'), n, p0)
+    aug = how.startswith('aug_') and not isinstance(s, bitstring.BitArray)
+    FWD = {'add': (operator.add, operator.iadd), 'and': (operator.and_, operator.iand), 'or': (operator.or_, operator.ior), 'xor': (operator.xor, operator.ixor)}
+    REV = {'radd': operator.add, 'rand': operator.and_, 'ror': operator.or_, 'rxor': operator.xor}
+    items = None
+    if base in FWD: r = FWD[base][1 if aug else 0](s, xo)
+    elif base in REV: r = REV[base](xo, s)
+    elif base == 'mul': r = operator.imul(s, N) if aug else s * N
+    elif base == 'rmul': r = N * s
+    elif base == 'lshift': r = operator.ilshift(s, N) if aug else s << N
+    elif base == 'rshift': r = operator.irshift(s, N) if aug else s >> N
+    elif base == 'invert': r = ~s
+    elif base == 'copy': r = s.copy()
+    elif base == 'copycopy': r = copy.copy(s)
+    elif base == 'slice': r = s[slice(*[resolve_n(v, n, p0) for v in st['key']])]
+    elif base == 'ctor': r = type(s)(s)
+    elif base == 'ctor_pos': r = type(s)(s, pos=resolve_p(st['pmode'], n))
+    elif base in ('ctor_other', 'ctor_other_pos'):
+        O = bitstring.BitStream if type(s) is bitstring.ConstBitStream else bitstring.ConstBitStream
+        r = O(s) if base == 'ctor_other' else O(s, pos=resolve_p(st['pmode'], n))
+    elif base == 'peek_n': r = s.peek(N)
+    elif base == 'read_n': r = s.read(N)
+    elif base == 'peek_bits': r = s.peek(f'bits:{N}')
+    elif base == 'read_bits': r = s.read(f'bits:{N}')
+    elif base == 'peeklist_bits': items = s.peeklist([f'bits:{N}', 'bits']); r = items[1]
+    elif base == 'readlist_bits': items = s.readlist([f'bits:{N}', 'bits']); r = items[1]
+    elif base == 'unpack_bits': items = s.unpack('bits'); r = items[0]
+    elif base == 'bitsprop': r = s.bits
+    elif base == 'cut': items = list(s.cut(st['w'])); r = items[st['i'] % len(items)] if items else None
+    elif base == 'split': items = list(s.split(Bits(bin=st['pat']))); r = items[st['i'] % len(items)] if items else None
+    elif base == 'join': r = s.join([make_operand(operand_type(x, operand_bits(x, d), 'join'), operand_bits(x, d), s, x.get('pos', 0)) for x in st['items']])
+    elif base == 'pack_bits': r = pack('bits', s)
+    elif base == 'readto_obj': r = s.readto(Bits(bin=st['pat']))
+    else: raise AssertionError(how)
+    out = {'cls': type(r).__name__ if r is not None else None, 'bin': r.bin if r is not None else None, 'pos': getattr(r, 'pos', None), 'same': r is s,
+           'samex': xs is not None and r is xs, 'spos': s.pos,
+           'items': [[x.bin, getattr(x, 'pos', None), x is s] for x in items] if items is not None else None}
+    if xs is not None: xrec.append(xs.pos)
+    if r is not None and hasattr(r, 'pos'):
+        k = min(st['probe'], len(r) - r.pos)
+        v = r.read(k)                                     # reading from the result ...
+        out['probe'] = [k, v.bin, r.pos, s.pos, getattr(v, 'pos', None)]
+        j = min(st['probe'], len(s) - s.pos)
+        w = s.peek(j)                                     # ... and looking at the stream it came from
+        out['speek'] = [j, w.bin, r.pos, s.pos]
+        if st.get('keep') and len(kept) < 4 and r is not s and all(r is not k_ for k_ in kept): kept.append(r); out['kept'] = True
+    if xs is not None: xrec += [xs.pos, xs.bin == xb]
+    out['x'] = xrec
+    return out
+
+def do_usekept(kept, st):
+    if not kept: return ['none']
+    o = kept[st['j'] % len(kept)]
+    N = resolve_n(st['n'], len(o), o.pos)
+    how = st['how']
+    if how == 'read': v = o.read(N); return ['bits', v.bin, getattr(v, 'pos', None)]
+    if how == 'peek': v = o.peek(N); return ['bits', v.bin, getattr(v, 'pos', None)]
+    if how == 'setpos': o.pos = N; return ['none']
+    if how == 'readall': return ['bits', o.read('bin')]
+    return ['none']
+
+def do_pure(s, st):
+    import bitstring, io
+    from bitstring import Bits
+    m = st['m']; n = len(s)
+    P = Bits(bin=st['pat']) if 'pat' in st else None
+    if m == 'len': return len(s)
+    if m == 'bin': return s.bin
+    if m == 'tobytes': return s.tobytes().hex()
+    if m == 'count1': return s.count(1)
+    if m == 'count0': return s.count(0)
+    if m == 'all': return s.all(1)
+    if m == 'any': return s.any(1)
+    if m == 'startswith': return s.startswith(P)
+    if m == 'endswith': return s.endswith(P)
+    if m == 'contains': return P in s
+    if m == 'findall': return list(s.findall(P))
+    if m == 'str': str(s); return None
+    if m == 'repr': repr(s); return None
+    if m == 'bool': bool(s); return None
+    if m == 'iter': return ''.join('1' if b else '0' for b in s)
+    if m == 'index': return s[st['i']]
+    if m == 'pp': s.pp(stream=io.StringIO()); return None
+    if m == 'eq': return [s == Bits(bin=s.bin), Bits(bin=s.bin) == s, s == type(s)(bin=s.bin)]
+    if m == 'ne': return s != Bits(bin=s.bin)
+    if m == 'hash': return True if isinstance(s, bitstring.BitArray) else hash(s) == hash(Bits(bin=s.bin))
+    if m == 'tobitarray': return s.tobitarray().to01()
+    if m == 'uint': return format(s.uint, 'x') if n else None           # (as text: a replay file cannot hold a 10 000 digit number)
+    if m == 'hex': return s.hex if n and n % 4 == 0 else None
+    if m == 'bytes_prop': return s.bytes.hex() if n and n % 8 == 0 else None
+    if m == 'copy_eq': return s.copy() == s
+    if m == 'tofile':
+        f = io.BytesIO(); s.tofile(f); return f.getvalue().hex()
+    raise AssertionError(m)
 
 # ---------------- reference machine (written from the property text) ----------------
 def ref_interp(k, b):
@@ -229,10 +471,10 @@ def ref_interp(k, b):
     if k == 'hex': return ['bits', b]
     if k == 'uint':
         if not b: raise R.RefErr('ValueError')
-        return ['z', int(b, 2)]
+        return zc(int(b, 2))
     if k == 'int':
         if not b: raise R.RefErr('ValueError')
-        v = int(b, 2); return ['z', v - (1 << len(b)) if b[0] == '1' else v]
+        v = int(b, 2); return zc(v - (1 << len(b)) if b[0] == '1' else v)
     if k == 'bool': return ['bool', b == '1']
     if k == 'pad': return ['none']
 
@@ -398,19 +640,213 @@ def eff(c, st):
     if st.get('op') == 'replace' and c.get('opt_ba'): return dict(st, ba_eff=True)
     return st
 
+def ref_newobj(cls, d, pos, st, ba, lsb0):
+    """what the property (and the documented value of each operator) says about a call that returns an object:
+    -> ('err', kinds) | ('ok', {'cls': class or None (not fixed by the text), 'bits', 'rpos': position of the result, 'spos': position of the stream afterwards, 'items': [bits] | None})"""
+    how = st['how']; base = how[4:] if how.startswith('aug_') else how
+    n = len(d)
+    other = 'BitStream' if cls == 'ConstBitStream' else 'ConstBitStream'
+    N = resolve_n(st.get('n'), n, pos)
+    def E(bits, rc=cls, rpos=0, spos=pos, items=None): return ('ok', {'cls': rc, 'bits': bits, 'rpos': rpos, 'spos': spos, 'items': items})
+    win = lambda a, k: d[n - a - k:n - a] if lsb0 else d[a:a + k]          # the k bits a read at position a consumes: right to left under lsb0
+    try:
+        if 'x' in st:
+            xb = operand_bits(st['x'], d); t = operand_type(st['x'], xb, base)
+            left = t if t in CLASSES else cls                              # the result takes the class of the left operand when that is a bitstring
+        if base == 'add': return E(d + xb)
+        if base == 'radd': return E(xb + d, left)
+        if base in ('and', 'or', 'xor', 'rand', 'ror', 'rxor'):
+            if len(xb) != n: return ('err', {'ValueError'})
+            f = {'and': lambda a, b: a & b, 'or': lambda a, b: a | b, 'xor': lambda a, b: a ^ b}[base[1:] if base[0] == 'r' and base != 'or' else base]
+            bits = ''.join(str(f(int(a), int(b))) for a, b in zip(d, xb))
+            return E(bits, left if base in ('rand', 'ror', 'rxor') else cls)
+        if base in ('mul', 'rmul'):
+            if N < 0: return ('err', {'ValueError'})
+            return E(d * N)
+        if base == 'lshift': return E(R.lshift(d, N))
+        if base == 'rshift': return E(R.rshift(d, N))
+        if base == 'invert':
+            if not d: return ('err', {'BsError'})
+            return E(inv_bits(d))
+        if base in ('copy', 'copycopy', 'ctor'): return E(d)
+        if base == 'ctor_other': return E(d, other)
+        if base in ('ctor_pos', 'ctor_other_pos'):
+            P = resolve_p(st['pmode'], n)
+            if P > n: return ('err', {'BsError', 'ValueError'})
+            return E(d, cls if base == 'ctor_pos' else other, P)
+        if base == 'slice':
+            key = [resolve_n(v, n, pos) for v in st['key']]
+            if key[2] == 0: return ('err', {'ValueError'})
+            return E(d[::-1][slice(*key)][::-1] if lsb0 else d[slice(*key)])
+        if base in ('peek_n', 'peek_bits', 'read_n', 'read_bits'):
+            if N > n - pos: return ('err', {'ReadError'})
+            return E(win(pos, N), None, 0, pos + N if base.startswith('read') else pos)
+        if base in ('peeklist_bits', 'readlist_bits'):
+            if N > n - pos: return ('err', {'ReadError'})
+            items = [d[pos:pos + N], d[pos + N:]]
+            return E(items[1], None, 0, n if base.startswith('read') else pos, items)
+        if base == 'unpack_bits': return E(d, None, 0, pos, [d])
+        if base == 'bitsprop': return E(d, None)
+        if base == 'cut':
+            items = R.cut(d, st['w'])
+            return E(items[st['i'] % len(items)] if items else None, None, 0, pos, items)
+        if base == 'split':
+            items = R.split(d, st['pat'], ba=ba)
+            return E(items[st['i'] % len(items)] if items else None, None, 0, pos, items)
+        if base == 'join': return E(d.join(operand_bits(x, d) for x in st['items']))
+        if base == 'pack_bits': return E(d, 'BitStream')
+        if base == 'readto_obj':
+            m = R.matches(d, st['pat'], pos, n, ba)
+            if not m: return ('err', {'ReadError'})
+            e = m[0] + len(st['pat'])
+            return E(d[pos:e], None, 0, e)
+    except R.RefErr as e:
+        return ('err', {e.kind})
+    raise AssertionError(how)
+
+NOCHECK = '<not compared>'
+def ref_pure(d, pos, st, ba):
+    """-> ('err', kinds) | ('ok', value | NOCHECK): values of calls that do not return streams; none of them may move the position"""
+    m = st['m']; n = len(d); p = st.get('pat')
+    tob = lambda: (int(d + '0' * (-n % 8), 2).to_bytes((n + 7) // 8, 'big').hex() if n else '')
+    if m == 'len': return ('ok', n)
+    if m in ('bin', 'iter', 'tobitarray'): return ('ok', d)
+    if m in ('tobytes', 'tofile'): return ('ok', tob())
+    if m == 'count1': return ('ok', d.count('1'))
+    if m == 'count0': return ('ok', d.count('0'))
+    if m == 'all': return ('ok', all(ch == '1' for ch in d))
+    if m == 'any': return ('ok', any(ch == '1' for ch in d))
+    if m == 'startswith': return ('ok', d.startswith(p))
+    if m == 'endswith': return ('ok', d.endswith(p))
+    if m == 'contains': return ('ok', NOCHECK if ba else p in d)
+    if m == 'findall': return ('ok', R.findall(d, p, ba=ba))
+    if m in ('str', 'repr', 'bool', 'pp'): return ('ok', NOCHECK)
+    if m == 'index':
+        i = st['i']
+        if not -n <= i < n: return ('err', {'IndexError'})
+        return ('ok', d[i] == '1')
+    if m == 'eq': return ('ok', [True, True, True])
+    if m == 'ne': return ('ok', False)
+    if m in ('hash', 'copy_eq'): return ('ok', True)
+    if m == 'uint': return ('ok', format(int(d, 2), 'x') if n else None)
+    if m == 'hex': return ('ok', format(int(d, 2), f'0{n // 4}x') if n and n % 4 == 0 else None)
+    if m == 'bytes_prop': return ('ok', tob() if n and n % 8 == 0 else None)
+    raise AssertionError(m)
+
+def judge_newobj(c, st, d, pos, r, after, K, ba, lsb0):
+    """-> message or None; appends to K (the reference states of the kept objects)"""
+    where = f"{c['cls']}({d!r}, pos={pos}{', lsb0' if lsb0 else ''}{', route ' + c['route'] if c.get('route') else ''}) {st}"
+    res = ref_newobj(c['cls'], d, pos, st, ba, lsb0)
+    if res[0] == 'err':
+        if r[0] != 'err' or r[1] not in res[1]: return f"{where} should raise {sorted(res[1])}, got {str(r)[:200]}"
+        if after[0] != d or after[1] != pos: return f"{where} raised {r[1]} but changed the stream to (bits={after[0]!r}, pos={after[1]})"
+        return None
+    e = res[1]
+    if r[0] != 'ok': return f"{where} raised {r[1]}; the reference gives an object holding {str(e['bits'])[:80]!r}"
+    o = r[1]
+    if after[0] != d: return f"{where} changed the bits of the stream it was called on to {after[0]!r}"
+    if o['spos'] != e['spos']: return f"{where} left the stream it was called on at pos {o['spos']}, documented: {e['spos']}"
+    if o['x'] is not None and (o['x'][0] != o['x'][1] or not o['x'][-1]):
+        return f"{where} moved / changed its operand stream: operand pos {o['x'][0]} -> {o['x'][1]}, operand bits unchanged: {o['x'][-1]}"
+    if e['items'] is not None:
+        if [i[0] for i in o['items']] != e['items'] and not lsb0: return f"{where} returned items {[i[0] for i in o['items']][:6]}, reference gives {e['items'][:6]}"
+        for b, p, same in o['items']:
+            if p not in (None, 0): return f"{where}: a returned stream object starts at pos {p}, not 0"
+            if same: return f"{where}: a returned item is the stream itself, not a new object"
+    if e['bits'] is None:
+        if o['cls'] is not None: return f"{where} returned an object, reference gives none"
+        return None
+    if o['cls'] is None: return f"{where} returned no object, reference gives {e['bits']!r}"
+    if o['same']: return f"{where} returned the stream itself (result is operand), not a new object: reading from the result moves the original"
+    if o['samex']: return f"{where} returned its operand stream itself, not a new object"
+    if e['cls'] is not None and o['cls'] != e['cls']: return f"{where} returned a {o['cls']}, expected a {e['cls']}"
+    if o['bin'] != e['bits']: return f"{where} returned bits {o['bin']!r}, reference gives {e['bits']!r}"
+    if o['cls'] in STREAMS:
+        if o['pos'] != e['rpos']: return f"{where}: the new {o['cls']} starts at pos {o['pos']}, not {e['rpos']}"
+        E = e['bits']; rp = e['rpos']; sp = e['spos']; n = len(d)
+        k = min(st['probe'], len(E) - rp)
+        win = lambda bits, a, w: bits[len(bits) - a - w:len(bits) - a] if lsb0 else bits[a:a + w]
+        pk, pv, prpos, pspos, pvpos = o['probe']
+        if pk != k or pv != win(E, rp, k): return f"{where}: reading {k} bits from the result gave {pv!r} (asked for {pk}), reference gives {win(E, rp, k)!r}"
+        if prpos != rp + k: return f"{where}: after reading {k} bits from the result its pos is {prpos}, not {rp + k}"
+        if pspos != sp: return f"{where}: reading from the result moved the stream it came from to pos {pspos} (was {sp})"
+        if pvpos not in (None, 0): return f"{where}: bits read from the result start at pos {pvpos}"
+        j = min(st['probe'], n - sp)
+        sj, sv, srpos, sspos = o['speek']
+        if sj != j or sv != win(d, sp, j): return f"{where}: afterwards peek({j}) on the original stream at pos {sp} gave {sv!r}, reference gives {win(d, sp, j)!r}"
+        if srpos != rp + k or sspos != sp: return f"{where}: looking at the original stream moved a position: result pos {srpos} (expected {rp + k}), original pos {sspos} (expected {sp})"
+        if o.get('kept'): K.append([E, rp + k])
+    else:
+        if o['pos'] is not None: return f"{where}: result of class {o['cls']} has a pos"
+    if after[1] != e['spos']: return f"{where} left the stream it was called on at pos {after[1]}, documented: {e['spos']}"
+    return None
+
+def judge_usekept(c, st, r, K, lsb0):
+    if not K:
+        return None if r == ['ok', ['none']] else f"usekept without kept objects gave {r}"
+    j = st['j'] % len(K)
+    bits, pos = K[j]; n = len(bits)
+    N = resolve_n(st['n'], n, pos)
+    how = st['how']
+    where = f"kept object #{j} (bits={bits!r}, pos={pos}{', lsb0' if lsb0 else ''}) {st}"
+    win = lambda a, w: bits[n - a - w:n - a] if lsb0 else bits[a:a + w]
+    if how in ('read', 'peek'):
+        kinds = {'ValueError'} if N < 0 else {'ReadError'} if N > n - pos else None
+        if kinds:
+            return None if r[0] == 'err' and r[1] in kinds else f"{where} should raise {sorted(kinds)}, got {str(r)[:120]}"
+        if r[0] != 'ok' or r[1][:2] != ['bits', win(pos, N)]: return f"{where} returned {str(r)[:120]}, reference gives {win(pos, N)!r}"
+        if r[1][2] not in (None, 0): return f"{where}: the bits read start at pos {r[1][2]}"
+        if how == 'read': K[j] = [bits, pos + N]
+    elif how == 'setpos':
+        if not 0 <= N <= n:
+            return None if r[0] == 'err' and r[1] == 'ValueError' else f"{where} should raise ValueError, got {str(r)[:120]}"
+        if r[0] != 'ok': return f"{where} raised {r[1]}"
+        K[j] = [bits, N]
+    elif how == 'readall':
+        exp = bits[:n - pos] if lsb0 else bits[pos:]
+        if r[0] != 'ok' or r[1] != ['bits', exp]: return f"{where} returned {str(r)[:120]}, reference gives {exp!r}"
+        K[j] = [bits, n]
+    elif r[0] != 'ok': return f"{where} raised {r[1]}"
+    return None
+
 def oracle(c, obs):
-    for st, (before, r, after) in zip(c['steps'], obs[1]):
+    K = []           # reference (bits, pos) of the kept objects: only a call ON a kept object may change its entry
+    lsb0 = bool(c.get('opt_lsb0'))
+    for st, t in zip(c['steps'], obs[1]):
+        before, r, after = t[:3]
+        kept_obs = t[3] if len(t) > 3 else None
         st = eff(c, st)
         d, pos = before
         if not 0 <= after[1] <= len(after[0]): return f"{c['cls']}: pos={after[1]} outside [0, {len(after[0])}] after {st} (before: pos={pos}, {len(d)} bits)"
         if after[2] != len(after[0]): return f"len mismatch after {st}"
+        msg = None
+        if st['op'] == 'newobj': msg = judge_newobj(c, st, d, pos, r, after, K, bool(c.get('opt_ba')), lsb0)
+        elif st['op'] == 'usekept':
+            msg = judge_usekept(c, st, r, K, lsb0)
+            if not msg and (after[0] != d or after[1] != pos): msg = f"using kept object {st} changed the stream it once came from: ({d!r}, {pos}) -> ({after[0]!r}, {after[1]})"
+        elif st['op'] == 'pure':
+            res = ref_pure(d, pos, st, bool(c.get('opt_ba')))
+            where = f"{c['cls']}({d!r}, pos={pos}) {st}"
+            if res[0] == 'err':
+                if r[0] != 'err' or r[1] not in res[1]: msg = f"{where} should raise {sorted(res[1])}, got {str(r)[:150]}"
+            elif r[0] != 'ok': msg = f"{where} raised {r[1]}"
+            elif res[1] != NOCHECK and r[1] != res[1]: msg = f"{where} returned {str(r[1])[:150]}, reference gives {str(res[1])[:150]}"
+            if not msg and (after[0] != d or after[1] != pos): msg = f"{where} is not a position-moving call but left (bits={after[0]!r}, pos={after[1]})"
+        else:
+            msg = judge_step(c, st, d, pos, r, after)
+        if msg: return msg
+        if kept_obs is not None and [list(x) for x in kept_obs] != K:
+            return f"{c['cls']}({d!r}, pos={pos}) {st}: stream objects returned by earlier calls are now at (bits, pos) = {kept_obs}, they were left at {K}: a call on one object moved / changed another"
+    return None
+
+def judge_step(c, st, d, pos, r, after):
         d2, p2, res = ref_step(c['cls'], d, pos, st)
-        if res[0] == 'any': continue
+        if res[0] == 'any': return None
         where = f"{c['cls']}({d!r}, pos={pos}) {st}"
         if res[0] == 'err':
             if r[0] != 'err' or r[1] not in res[1]: return f"{where} should raise {sorted(res[1])}, got {str(r)[:150]}; state {after[:2]}"
             if after[0] != d or after[1] != pos: return f"{where} raised {r[1]} but changed the state to {after[:2]}"
-            continue
+            return None
         if r[0] != 'ok': return f"{where} raised {r[1]}; reference gives value {str(res[1])[:100]} state ({d2!r}, {p2})"
         got = r[1]
         if st['op'] in ('read', 'peek', 'readto') and got and got[0] == 'bits':
@@ -420,14 +856,16 @@ def oracle(c, obs):
             got = [g[:2] if g and g[0] == 'bits' else g for g in got]
         if got != res[1]: return f"{where} returned {str(got)[:150]}, reference gives {str(res[1])[:150]}"
         if after[0] != d2 or after[1] != p2: return f"{where} left (bits={after[0]!r}, pos={after[1]}), documented state is (bits={d2!r}, pos={p2})"
-    return None
+        return None
 
 def nontrivial(c, obs):
-    return sum(1 for b, r, a in obs[1] if b[1] != a[1]) >= 2
+    return sum(1 for t in obs[1] if t[0][1] != t[2][1]) >= 2
 
 def classify(c, obs):
     # ConstBitStream exposes append()/overwrite() although it is immutable (D7/D8): identified by class + operation
-    for st, (before, r, after) in zip(c['steps'], obs[1]):
+    for st, t in zip(c['steps'], obs[1]):
+        before, r, after = t[:3]
+        if st['op'] in ('newobj', 'usekept', 'pure'): continue
         d, pos = before
         d2, p2, res = ref_step(c['cls'], d, pos, st)
         if res[0] == 'any': continue
@@ -460,6 +898,7 @@ def coq_step(cls, st, before, r, after):
     S = f"(mkstream {cbits(before[0])} {cz(before[1])})"
     A = f"{cbits(after[0])} {cz(after[1])}"
     unit = "(Ok tt)" if r[0] == 'ok' else cerr(r)
+    if op in ('read', 'peek', 'readlist', 'peeklist') and 'zhex' in json.dumps(r[1]): return None          # a number too long to be written out
     if op in ('read', 'peek'):
         f = 'read_token' if op == 'read' else 'peek_token'
         exp = f"(Ok {cval(r[1])})" if r[0] == 'ok' else cerr(r)
@@ -502,7 +941,10 @@ def coq_step(cls, st, before, r, after):
 
 def coq_check(c, obs):
     terms = []
-    for st, (before, r, after) in zip(c['steps'], obs[1]):
+    if c.get('opt_lsb0'): return None              # the stream machine of Stream.v is the msb0 one
+    for st, tr in zip(c['steps'], obs[1]):
+        before, r, after = tr[:3]
+        if st['op'] in ('newobj', 'usekept', 'pure'): continue
         t = coq_step(c['cls'], eff(c, st), before, r, after)
         if t is not None: terms.append('(' + t + ')')
     return ' && '.join(terms) if terms else None
